@@ -207,12 +207,42 @@ def splice (d : Data ε) (b : Nat) : R (Data ε × Data ε) := do
 def append (d o : Data ε) : Data ε := { d with batches := d.batches ++ o.batches }
 def pushBack (d : Data ε) (batch : List ε) : Data ε := { d with batches := d.batches ++ [batch] }
 
+/-- inner copy loop of `SharedContainer::repartition`: copy `n` elements starting at element `idx` of the first
+remaining old batch, stepping to the next old batch whenever the current one is exhausted
+(`++currentBatchIndex; if(currentBatchIndex == size(batch(currentBatch))){ ++currentBatch; currentBatchIndex = 0; }`).
+Returns (copied elements, remaining old batches, index into the first of them). -/
+def copyN : List (List ε) → Nat → Nat → Option (List ε × List (List ε) × Nat)
+  | old, idx, 0 => some ([], old, idx)
+  | [], _, _ + 1 => none                                   -- `batch(currentBatch)` past the last batch
+  | b :: rest, idx, n + 1 => do
+    let x ← b[idx]?
+    let (xs, old', idx') ← if idx + 1 = b.length then copyN rest 0 n else copyN (b :: rest) (idx + 1) n
+    pure (x :: xs, old', idx')
+
+/-- outer loop of `SharedContainer::repartition` (one new batch per requested size; `createBatch` needs
+`batch(currentBatch)` as blueprint, so a batch must remain whenever a new one is started) -/
+def repartitionLoop : List (List ε) → Nat → List Nat → Option (List (List ε))
+  | old, _, [] => if old.isEmpty then some [] else none     -- `SIZE_CHECK(currentBatch == size())`
+  | old, idx, s :: ss => do
+    if old.isEmpty then none
+    let (xs, old', idx') ← copyN old idx s
+    let tl ← repartitionLoop old' idx' ss
+    pure (xs :: tl)
+
 /-- `repartition(batchSizes)`; the copy loop of the C++ walks the old batches element by element,
 which is defined iff the sizes sum to the element count and no old or new batch is empty -/
 def repartition (d : Data ε) (sizes : List Nat) : R (Data ε) := do
   require (sizes.sum = d.numberOfElements)
   require (d.nonEmptyBatches && sizes.all (· > 0))
   pure { d with batches := splitBySizes d.flat sizes }
+
+/-- `repartition(batchSizes)` computed by the element-by-element copy loop of the C++ (`repartitionLoop`);
+proved equal to `repartition` (`C03.repartition_loop_eq`); the driver executes this version -/
+def repartitionByLoop (d : Data ε) (sizes : List Nat) : R (Data ε) := do
+  require (sizes.sum = d.numberOfElements)
+  require (d.nonEmptyBatches && sizes.all (· > 0))
+  let bs ← ofOpt (repartitionLoop d.batches 0 sizes)
+  pure { d with batches := bs }
 
 /-- `reorderElements(indices)`: new element j = `*(elements().begin() + indices[j])`, batch structure kept -/
 def reorderElements (d : Data ε) (indices : List Nat) : R (Data ε) := do
@@ -290,6 +320,9 @@ def pushBack (d : LabeledData ι κ) (bi : List ι) (bl : List κ) : LabeledData
 
 def repartition (d : LabeledData ι κ) (sizes : List Nat) : R (LabeledData ι κ) := do
   pure ⟨← d.inputs.repartition sizes, ← d.labels.repartition sizes⟩
+
+def repartitionByLoop (d : LabeledData ι κ) (sizes : List Nat) : R (LabeledData ι κ) := do
+  pure ⟨← d.inputs.repartitionByLoop sizes, ← d.labels.repartitionByLoop sizes⟩
 
 def reorderElements (d : LabeledData ι κ) (indices : List Nat) : R (LabeledData ι κ) := do
   pure ⟨← d.inputs.reorderElements indices, ← d.labels.reorderElements indices⟩
